@@ -173,6 +173,18 @@ func caseC16(c *Ctx) {
 			} else if s.PublicSnapshot() != before {
 				s.fail("registry.limit.changed", "the rejected registration beyond the limit changed the world: %s", firstDiff(before, s.PublicSnapshot()))
 			}
+			// the refused type again, and others: refused every time, and nothing sticks
+			for k := 0; k < 3 && !s.Failed(); k++ {
+				tp := extra
+				if k == 1 {
+					tp = TypeOfKey(fmt.Sprintf("F%d", 9600+c.R.Intn(100)))
+				}
+				if !mustPanic(func() { ecs.TypeID(s.W, tp) }) {
+					s.fail("registry.limit", "registering a type beyond the limit of %d was refused once, attempt %d (same type: %v) did not panic", limit, k+2, k != 1)
+				} else if s.PublicSnapshot() != before {
+					s.fail("registry.limit.changed", "rejected registrations beyond the limit changed the world: %s", firstDiff(before, s.PublicSnapshot()))
+				}
+			}
 			s.Cov.N["limit_plus_one"]++
 		} else {
 			// the rejected type is a relation type in every second case: nothing of it may stick to the ID
@@ -343,6 +355,24 @@ func caseC16Res(c *Ctx, n int) {
 			s.fail("resreg.limit", "registering resource type %d of max %d did not panic", n+1, limit)
 		} else if len(ecs.ResourceIDs(&w)) != n {
 			s.fail("resreg.limit.changed", "the rejected resource registration changed the registry")
+		}
+		// the refused type again, and another one: refused every time, and nothing sticks
+		for k, key := range []string{"F9777", "F9778", "F9777"} {
+			if s.Failed() {
+				break
+			}
+			if !mustPanic(func() { ecs.ResourceTypeID(&w, TypeOfKey(key)) }) {
+				s.fail("resreg.limit", "registering a resource type beyond the limit of %d was refused once, attempt %d (%s) did not panic", limit, k+2, key)
+			} else if len(ecs.ResourceIDs(&w)) != n {
+				s.fail("resreg.limit.changed", "rejected resource registrations changed the registry")
+			}
+		}
+		for i, id := range scribbledRes(ecs.ResourceIDs(&w)) {
+			if tp, ok := ecs.ResourceType(&w, id); !ok || tp != TypeOfKey(keys[i]) {
+				if !s.Failed() {
+					s.fail("resreg.limit.changed", "after rejected registrations resource ID %d is reported as %v", i, tp)
+				}
+			}
 		}
 		s.Cov.N["res_limit_plus_one"]++
 	}
